@@ -324,4 +324,63 @@ theorem upperOK_joinB (hOm : OwnMinus c.own own' w) (hOw : OwnSub c.own ow (fun 
 
 end
 
+-- ------------------------------------------------------------------ the two theorems, on the chain and the flag height
+
+section
+variable {c : Ctx} {w : Wid} {addrs : List Addr} {own' : Own} {chain : List Block} {k : Nat}
+
+/-- **the joined book meets the interface of the removal-step proofs** -/
+theorem upperOK_join (H : RemHyp c w addrs own' chain) (hKN : KeysNodup c.own) (_hk : k + 1 ≤ chain.length) :
+    UpperOK c w own' chain (joinBookK c w own' chain k) := by
+  have h := upperOK_joinB (c := c) (w := w) (own' := own') (ow := ownW c.own w) (pre := chain.take (k + 1))
+    (post := chain.drop (k + 1)) H.minus (ownW_sub hKN w) (by rw [List.take_append_drop]; exact H.valid)
+  rw [List.take_append_drop] at h
+  exact h
+
+/-- **the store of a flagged wallet, before any removal step, satisfies the in-progress invariant** relative to the
+    joined book -/
+theorem scanJS_to_midU {s : Store} (H : RemHyp c w addrs own' chain) (hKN : KeysNodup c.own)
+    (_hk : k + 1 ≤ chain.length) (hS : ScanJS c w s chain k)
+    (_hnr : (readyWallets s c.wallets).contains w = false) (hn : KeysNodup s.credits)
+    (hp : ∀ e ∈ s.pendCred, addrs.contains e.2.sh = false → e.1.1 ∉ idsOf (occs chain)) :
+    MidU c w addrs own' s chain (joinBookK c w own' chain k) := by
+  have hOw := ownW_sub hKN w
+  have hE : bookOf c.p (ownR c.own w) chain = bookOf c.p own' chain := (bookOf_ownR H.minus hKN c.p chain).symm
+  have hA : AgreeJ s (bookOf c.p own' chain) (bookOf c.p (ownW c.own w) (chain.take (k + 1))) := by
+    have := hS.agree
+    rw [hE] at this
+    exact this
+  have hV : ChainValid c.own (chain.take (k + 1) ++ chain.drop (k + 1)) := by
+    rw [List.take_append_drop]; exact H.valid
+  have hVw : ChainValid (ownW c.own w) (chain.take (k + 1)) := chainValid_sub hOw (chainValid_prefix hV)
+  refine ⟨hn, fun k => Or.inl (hA.credits k), fun dk => Or.inl (hA.debits dk), ?_, hA.unspent, hA.game,
+    fun k => Or.inl (hA.txrecs k), ?_, hS.blocks, ?_, hS.sync, hS.syncedTo, hp⟩
+  · -- debitsW
+    intro dk d cr _ hcr _
+    rw [hA.credits]; exact hcr
+  · -- txrecsW
+    intro key loc hg hB'
+    rw [hA.txrecs, hB'] at hg
+    obtain ⟨ck, cr, hcr, hlead⟩ := txrec_lead hVw (show (bookOf c.p (ownW c.own w) (chain.take (k + 1))).txrecs key = some loc from hg)
+    refine ⟨ck, cr, ?_, bw_cred_isW hOw hV hcr, hlead⟩
+    rw [hA.credits]
+    cases hr : (bookOf c.p own' chain).credits ck with
+    | none => exact hcr
+    | some cr' =>
+      exfalso
+      have hr' : (bookOf c.p own' (chain.take (k + 1) ++ chain.drop (k + 1))).credits ck = some cr' := by
+        rw [List.take_append_drop]; exact hr
+      exact no_both_cred H.minus hOw hV hr' hcr
+  · -- bal
+    intro w' hw' hr
+    have := hS.balR w' hw' hr
+    rw [hE] at this
+    rw [this]
+    show some _ = some (totalU ((bookOf c.p own' chain).L ++ (bookOf c.p (ownW c.own w) (chain.take (k + 1))).L) w')
+    rw [totalU_append, totalU_zero (A := (bookOf c.p (ownW c.own w) (chain.take (k + 1))).L) (fun u hu => by
+      rw [bw_L_wallet hOw _ u hu]; exact fun h => hw' h.symm)]
+    rfl
+
+end
+
 end MW.Lemmas.RemoveJoin
